@@ -156,7 +156,17 @@ class StoreRun:
                 uid = r.choice(self.uid_pool)
             else:
                 uid = m.get("uid") if r.random() < 0.8 else "u-moved-%d" % r.randint(0, 99)
-            if r.random() < 0.15:
+            if r.random() < 0.2 and m["bytes"] and nm.endswith((".ics", ".vcf")):
+                # same length, different content (defeats caches keyed on size and timestamps)
+                old = m["bytes"]
+                i = old.find(b"uid-") if b"uid-" in old else old.find(b"FN:")
+                b = old
+                for j in range(len(old) - 1, 0, -1):
+                    if old[j:j + 1].isdigit():
+                        b = old[:j] + (b"7" if old[j:j + 1] != b"7" else b"3") + old[j + 1:]
+                        break
+                ct = "text/calendar" if nm.endswith(".ics") else "text/vcard"
+            elif r.random() < 0.15:
                 b, ct = m["bytes"], ("text/calendar" if nm.endswith(".ics") else "text/vcard" if nm.endswith(".vcf") else "application/octet-stream")
             else:
                 b, ct = self.body(nm, uid)
@@ -215,7 +225,7 @@ class StoreRun:
                     if len(self.handles) > 1 and "handle" not in op:
                         op["handle"] = self.rng.randrange(len(self.handles))
                     if self.cfg.get("io_faults") and op["op"] in ("import", "delete") and self.rng.random() < 0.2 and self.stats.get("fault.io_error_armed", 0) < 2:
-                        op["fault"] = {"after": self.rng.randint(1, 25), "errno": self.rng.choice(["ENOSPC", "EIO"])}
+                        op["fault"] = {"after": self.rng.randint(1, 3 if self.cfg["backend"] == "vdir" else 25), "errno": self.rng.choice(["ENOSPC", "EIO"])}
                     self.step(op)
                     if self.violations:
                         break
